@@ -252,8 +252,8 @@ def parse_val_to_bytes(retriever: 'Retriever', val: int | float | str | bytes) -
 
         return _combine_int_str(byte_string, var_len, endian="little", signed=True, retriever=retriever)
     elif var_type == "c":  # str
-        if len(val) > var_len:
-            raise ValueError(f"Value cannot be longer than {var_len}, retriever: {retriever}")
+        if len(str_to_bytes(val)) > var_len:
+            raise ValueError(f"Value cannot be longer than {var_len} bytes, retriever: {retriever}")
         return fixed_chars_to_bytes(val, var_len)
     elif var_type == "data":  # bytes
         return val
